@@ -169,7 +169,8 @@ let run_case cid t h v ops =
       | ["schema"] ->
         let rs = schema_of evs in
         if out = SDone then
-          Printf.printf "%s schema %s rows=%s csv=ok debug=%s\n" cid (show_sout out) (show_rows rs)
+          Printf.printf "%s schema %s rows=%s flush=%d csv=ok debug=%s\n" cid (show_sout out) (show_rows rs)
+            (List.length (List.filter (fun e -> e = EFlush) evs))
             (if debug_ok (evs_len evs) rs then "ok" else "panic")
         else Printf.printf "%s schema %s\n" cid (show_sout out)
       | ["cuts"; base] ->
@@ -220,6 +221,31 @@ let run_case cid t h v ops =
                 Printf.sprintf "@%x/%d:%s" off size (String.concat "," codes)) tagrows counts in
             Printf.printf "%s tags:%s %s\n" cid base (String.concat " " parts)
           end
+        end
+      | "wfault" :: _ ->
+        if out = SDone then begin
+          let nb = List.length bytes in
+          let rec nat_of i = if i = 0 then O else S (nat_of (i - 1)) in
+          let fuel = nat_of (2 * nb + 64) in
+          let is_prefix got = (List.length got <= nb) && (take (List.length got) bytes = got) in
+          let code (got, r) =
+            let pre = if is_prefix got then Printf.sprintf "p%d" (List.length got) else "NOTPREFIX" in
+            (match r with
+             | SROk _ -> "OK" | SRWriteError -> "WriteError" | SRPanic -> "PANIC"
+             | SRIterMismatch (a, e) -> Printf.sprintf "IteratorLengthMismatch:%s:%s" (hex_of_n a) (hex_of_n e)
+             | SRNoOutcome -> "NOOUTCOME") ^ "/" ^ pre in
+          let codes = List.init (nb + 1) (fun k ->
+              let c = code (run_fail_after (n_of_int k) fuel (evs, out)) in
+              let want = if k < nb then Printf.sprintf "WriteError/p%d" k else Printf.sprintf "OK/p%d" nb in
+              if c = want then "ok" else c) in
+          let extra = [
+            "flush=" ^ code (run_flush_fail fuel (evs, out));
+            "short1=" ^ code (run_short (n_of_int 1) N0 fuel (evs, out));
+            "short3=" ^ code (run_short (n_of_int 3) N0 fuel (evs, out));
+            "short7intr2=" ^ code (run_short (n_of_int 7) (n_of_int 2) fuel (evs, out));
+            "bigintr3=" ^ code (run_short (n_of_int 1048576) (n_of_int 3) fuel (evs, out));
+            "zero=" ^ code (run_zero_after (n_of_int (nb / 2)) fuel (evs, out)) ] in
+          Printf.printf "%s wfault fails=%s %s\n" cid (rle codes) (String.concat " " extra)
         end
       | ["place"; base] ->
         (* base address residues 0..127 *)
